@@ -70,8 +70,8 @@ CLAIMED = {
              "builders, early and late, followed by the library's normalisation) is interpreted abstractly; the "
              "returned expression object is read back field by field and must be well-formed, mention no new "
              "variable, be defined on every sign region where the original is, and have the canonical form of "
-             "the specification derivative. The well-formedness clause gives the second-order statement by "
-             "induction (C03-C05 apply to the result).",
+             "the specification derivative. Second order: Partial(Partial(e, v1).as_expression(), v2).at(p) must "
+             "equal the second specification derivative (all variable pairs, every region of the domain).",
         note="Inherits the known finding F3 (even root of even power), printed as KNOWN-FINDING. Depth-2 "
              "compositions; real-arithmetic identity only. Trusted: ast, interpreter, algebra, calculus table.",
         ref="4/C05"),
@@ -90,7 +90,8 @@ CLAIMED = {
         technique=ABSINT + " of the rewriter, one step at a time + canonical-form algebra per step",
         text="The driver is interpreted exactly as _fully_reduce drives it on every enumerated rule input (each "
              "class x the child classes its reducers inspect, discovered from the source, x parameter "
-             "combinations x arities/positions up to 3), on variable-free sub-trees (defined and undefined) for "
+             "combinations x arities/positions up to 3, sampled arities 4-5, depth-3 unary chains; thorough: 400 random "
+             "trees with identity-based generalisation of the rewritten sub-tree), on variable-free sub-trees for "
              "constant folding, through the normal-form pass and the public _normalize pipeline; every "
              "intermediate expression is read back and each step, attributed to the reducer that fired, must be "
              "defined on every sign region where its input is and have the same canonical value. Every listed "
@@ -101,7 +102,8 @@ CLAIMED = {
     "C11": dict(
         technique=ABSINT + " of the rewriter + termination certificate (symbol-count measures, recursive path order)",
         text="On every enumerated rule input and on structured larger families the interpreted rewrite sequence "
-             "must not revisit a form, inputs of <= 20 nodes must not reach the library's warning fallback, every "
+             "must not revisit a form, inputs of <= 20 nodes must be fully reduced within the library's own "
+             "REDUCTION_STEPS_BOUND (driven step by step to that bound) and must not grow beyond nesting depth 60, every "
              "reducer called directly on every node of a fresh copy of the final form must decline (rule-free, "
              "independent of the driver's flags), and every observed step must be strictly decreasing in a fixed "
              "well-founded order (mu1, mu2, then RPO; no variable duplicated), which rules out infinite chains of "
